@@ -10,6 +10,7 @@ import (
 	"slices"
 	"sort"
 	"strings"
+	"time"
 
 	rhp4 "go.sia.tech/core/rhp/v4"
 	"go.sia.tech/core/types"
@@ -367,7 +368,9 @@ func runC10(r *mon.Run, replay string) {
 				return
 			}
 		}
+		t0 := time.Now()
 		f.run()
+		r.Extra("family_wall_s:"+f.name, time.Since(t0).Seconds())
 	})
 	if only == nil {
 		r.Floor("faults_that_changed_the_wire", int64(r.Pick(2000, 5000)))
